@@ -130,6 +130,143 @@ pub trait Api {
     fn seek(r: &mut Self::Reader, line: u64, byte: u64) -> Result<(), (ErrObs, String)>;
     fn set_policy(r: Self::Reader, pol: SimPolicy) -> Self::Reader;
     fn drain(r: Self::Reader, ctx: &mut MonCtx, max: usize) -> Vec<Out>;
+    /// the owned-record iterator of the reader (`records()` if `borrowed`, else `into_records()`)
+    /// taken through `plan` (see `run_plan`): size hint before every step, then the step
+    fn stepped(r: Self::Reader, borrowed: bool, plan: &[(u8, usize)]) -> Vec<((usize, Option<usize>), Out)>;
+}
+
+/// One entry of `plan` = one step on the iterator itself (not on an adaptor that would hide its own
+/// `nth`): kind 0 = `next()`, 1 = `nth(k)`, 2 = `by_ref().skip(k).next()`, 3 = `by_ref().step_by(k + 1)`
+/// polled twice (two entries come back). Before every step `size_hint()` is recorded.
+fn run_plan<I, T, E>(it: &mut I, plan: &[(u8, usize)], conv: &dyn Fn(Result<T, E>) -> Out) -> Vec<((usize, Option<usize>), Out)>
+where
+    I: Iterator<Item = Result<T, E>>,
+{
+    let mut v = vec![];
+    let mut put = |hint: (usize, Option<usize>), item: Option<Result<T, E>>| {
+        v.push((hint, match item {
+            None => Out::End,
+            Some(x) => conv(x),
+        }))
+    };
+    for (kind, k) in plan {
+        let hint = it.size_hint();
+        match kind {
+            0 => put(hint, it.next()),
+            1 => put(hint, it.nth(*k)),
+            2 => put(hint, it.by_ref().skip(*k).next()),
+            _ => {
+                let mut sb = it.by_ref().step_by(*k + 1);
+                let a = sb.next();
+                let b = sb.next();
+                put(hint, a);
+                put((0, None), b);
+            }
+        }
+    }
+    v
+}
+
+/// C20 for the owned-record iterators of a reader: the iterator of a second, identical reader is
+/// taken through a seeded plan of `next` / `nth(k)` / `skip(k)` / `step_by(k)` steps with the size
+/// hint queried before each; every item has to be the one a plain drain of the first reader put at
+/// that index (skipped items count whatever they are, error items included), and every size hint has
+/// to bracket the number of items the plain drain still had to come. Returns (rule, detail).
+pub fn stepped_drain(scn: &ReadScn, cfg: &Cfg, seed: u64) -> Option<(String, String)> {
+    match scn.fmt {
+        Fmt::Fasta => stepped_drain_api::<Fa>(scn, cfg, seed),
+        Fmt::Fastq => stepped_drain_api::<Fq>(scn, cfg, seed),
+    }
+}
+
+fn stepped_drain_api<A: Api>(scn: &ReadScn, cfg: &Cfg, seed: u64) -> Option<(String, String)> {
+    if cfg.pause.is_some() || !cfg.faults.is_empty() || scn.profile == PATH_PROFILE || scn.profile == FIFO_PROFILE || scn.input.len() > 100_000 {
+        return None;
+    }
+    let mk = || {
+        let budget = 64 * (scn.input.len() as u64 + cfg.cap as u64) + 4096 + 2 * cfg.intr_burst.map(|b| b.1 as u64).unwrap_or(0);
+        let seam = new_seam(4 * budget);
+        seam.borrow_mut().growth_limit = 8 * (scn.input.len() + cfg.cap);
+        let src = SimSource::new(Rc::new(scn.input.clone()), cfg, seam.clone());
+        let pol = SimPolicy::new(cfg.policy.clone(), seam.clone());
+        A::new(src, cfg.cap.max(3), pol)
+    };
+    let rng = Rng::new(seed ^ 0x5ced);
+    let borrowed = rng.chance(1, 2);
+    // the reference: plain next() calls until the end has been reported twice
+    let max = 2 * scn.input.len() + 16;
+    let plain: Vec<(u8, usize)> = vec![(0, 0); max];
+    let all = match vcore::catch(|| A::stepped(mk(), borrowed, &plain)) {
+        Ok(v) => v,
+        Err(_) => return None, // (panics of plain reading are C06 / C01 / C02 findings)
+    };
+    let n = match all.iter().position(|(_, o)| matches!(o, Out::End)) {
+        Some(i) => i,
+        None => return None,
+    };
+    if all[n..].iter().any(|(_, o)| !matches!(o, Out::End)) {
+        return None; // not sticky: reported by the drain rules
+    }
+    let full: Vec<&Out> = all[..n].iter().map(|(_, o)| o).collect();
+    // the plan
+    let mut plan: Vec<(u8, usize)> = vec![];
+    let mut covered = 0usize;
+    while covered < n + 3 && plan.len() < 64 {
+        let step = match rng.below(8) {
+            0..=2 => (0u8, 0usize),
+            3 | 4 => (1, rng.range(0, 4)),
+            5 | 6 => (2, rng.range(0, 4)),
+            _ => (3, rng.range(0, 3)),
+        };
+        covered += match step.0 {
+            0 => 1,
+            1 | 2 => step.1 + 1,
+            _ => 2 * (step.1 + 1),
+        };
+        plan.push(step);
+    }
+    let got = match vcore::catch(|| A::stepped(mk(), borrowed, &plan)) {
+        Ok(v) => v,
+        Err(p) => return Some(("reader_iter_panic".into(), format!("{} of a reader taken through the steps {:?}: {}", if borrowed { "records()" } else { "into_records()" }, plan, p))),
+    };
+    // judge
+    let which = if borrowed { "records()" } else { "into_records()" };
+    let mut i = 0usize; // index of the next item of the plain drain
+    let mut g = got.iter();
+    for (si, (kind, k)) in plan.iter().enumerate() {
+        // (index skipped to, polls)
+        let polls: Vec<usize> = match kind {
+            0 => vec![0],
+            1 | 2 => vec![*k],
+            _ => vec![0, *k], // step_by(k+1): first item at once, then k skipped
+        };
+        for (pi, skip) in polls.iter().enumerate() {
+            let (hint, item) = match g.next() {
+                Some(x) => x,
+                None => return None,
+            };
+            let remaining = n.saturating_sub(i);
+            if pi == 0 && (hint.0 > remaining || hint.1.map_or(false, |h| h < remaining)) {
+                return Some(("reader_iter_size_hint".into(), format!("{}: before step {} of {:?} size_hint() = {:?}, but {} item(s) were still to come (a plain drain yields {} items)", which, si, plan, hint, remaining, n)));
+            }
+            let j = i.saturating_add(*skip);
+            let want: &Out = if j < n { full[j] } else { &Out::End };
+            if item != want {
+                return Some(("reader_iter_step".into(), format!("{}: step {} of {:?} ({}) returned {} but item {} of a plain drain is {} ({} items in all)", which, si, plan, match kind { 0 => "next".to_string(), 1 => format!("nth({})", k), 2 => format!("skip({}).next()", k), _ => format!("step_by({}) poll {}", k + 1, pi) }, brief_out(item), j, brief_out(want), n)));
+            }
+            i = j.saturating_add(1);
+        }
+    }
+    None
+}
+
+fn brief_out(o: &Out) -> String {
+    let s = format!("{:?}", o);
+    if s.len() > 160 {
+        format!("{}...", &s[..160])
+    } else {
+        s
+    }
 }
 
 pub struct Fa;
@@ -355,6 +492,23 @@ impl Api for Fa {
         }
         outs
     }
+    fn stepped(r: Self::Reader, borrowed: bool, plan: &[(u8, usize)]) -> Vec<((usize, Option<usize>), Out)> {
+        let conv = |x: Result<fasta::OwnedRecord, fasta::Error>| match x {
+            Ok(rec) => Out::Rec(RecObs { head: rec.head, lines: vec![], seq: rec.seq, qual: vec![] }),
+            Err(e) => {
+                let (o, m) = fa_err(e);
+                Out::Err(o, m)
+            }
+        };
+        let mut r = r;
+        if borrowed {
+            let mut it = r.records();
+            run_plan(&mut it, plan, &conv)
+        } else {
+            let mut it = r.into_records();
+            run_plan(&mut it, plan, &conv)
+        }
+    }
 }
 
 impl Api for Fq {
@@ -476,6 +630,23 @@ impl Api for Fq {
             }
         }
         outs
+    }
+    fn stepped(r: Self::Reader, borrowed: bool, plan: &[(u8, usize)]) -> Vec<((usize, Option<usize>), Out)> {
+        let conv = |x: Result<fastq::OwnedRecord, fastq::Error>| match x {
+            Ok(rec) => Out::Rec(RecObs { head: rec.head, lines: vec![], seq: rec.seq, qual: rec.qual }),
+            Err(e) => {
+                let (o, m) = fq_err(e);
+                Out::Err(o, m)
+            }
+        };
+        let mut r = r;
+        if borrowed {
+            let mut it = r.records();
+            run_plan(&mut it, plan, &conv)
+        } else {
+            let mut it = r.into_records();
+            run_plan(&mut it, plan, &conv)
+        }
     }
 }
 
